@@ -249,6 +249,17 @@ REAL_REPLAY = [
     ("c20_lock_first_reflink", "C20.lock_first.", "lock", "reflink"),
     ("c20_lock_first_move", "C20.lock_first.", "lock", "move"),
     ("c20_file_lock_new", "C20.file_lock.", "lock_shared", "remove"),
+    ("c05_safe_remove", "C0", "faults", ("hardlink", False)),
+    ("c05_execute_remove", "C0", "faults", ("remove", False)),
+    ("c05_execute_hardlink", "C0", "faults", ("hardlink", False)),
+    ("c05_execute_softlink", "C0", "faults", ("softlink", False)),
+    ("c05_execute_reflink", "C0", "faults", ("reflink", False)),
+    ("c05_linux_reflink", "C0", "faults", ("reflink", False)),
+    ("c18_execute_move_rename", "C", "faults", ("move", False)),
+    ("c18_execute_move_copy", "C", "faults", ("move", False)),
+    ("c18_execute_move_rename_existing", "C", "faults", ("move", True)),
+    ("c18_execute_move_copy_existing", "C", "faults", ("move", True)),
+    ("wrapper_unsafe_copy", "C05.wrapper.", "faults", ("move", False)),
     ("c06_rf_over_contract", "C06.rf_over.contract", "transform_filter", None),
     ("c07_transform_frame", "C07.transform_frame.", "transform_frame", None),
     ("filegroup_counts", "C06.final_filter.group_transformed", "transform_filter", None),
@@ -256,6 +267,7 @@ REAL_REPLAY = [
 
 
 def real_replay_for(unit, obligation):
+    unit = unit[:-4] if unit.endswith("_std") else unit
     for u, pre, kind, arg in REAL_REPLAY:
         if u == unit and obligation.startswith(pre):
             return kind, arg
